@@ -1,4 +1,5 @@
 import CDVProofs.Blocks
+import CDVProofs.BlockStarts
 /-! # C13 — blocks are exactly the jump-target partition of the instruction sequence
 
 `buildBlocks` is the block-building half of `bytes_to_blocks` (`to_code_data` calls it on the decoded
@@ -41,6 +42,46 @@ theorem C13_jump_index_in_targets (ois : List (Nat × Instr)) (off op t : Nat) (
     indexOf t (targetsOf ois) < (targetsOf ois).length := by
   refine ⟨rfl, indexOf_lt_of_mem t _ ?_⟩
   exact jumpTarget_mem_targetsOf ois t (mem_jumpTargets op t r n l o off ois hm)
+
+/-- **One block per target, starting exactly there.**  With strictly increasing instruction offsets (what `_parse_bytes`
+    yields, `C02`) and every jump target an instruction start (what CPython requires of valid code): there are exactly as
+    many blocks as distinct targets (offset 0 and the jump targets), and the `k`-th block starts, in the flattened
+    instruction sequence, at the instruction whose offset is the `k`-th smallest target. -/
+theorem C13_blocks_are_targets (ois : List (Nat × Instr)) (blocks : List (List Instr)) (h : buildBlocks ois = .ok blocks)
+    (hso : SortedLt (ois.map (·.1))) (hsub : ∀ t ∈ targetsOf ois, t ∈ ois.map (·.1)) :
+    blocks.length = (targetsOf ois).length ∧
+    blockStarts blocks 0 = (targetsOf ois).map (fun t => indexOf t (ois.map (·.1))) :=
+  let ⟨h1, h2⟩ := blockStarts_eq_targets ois blocks h hso hsub
+  ⟨h2, h1⟩
+
+/-- **Every block after the first is the target of at least one jump**: the offset at which the `k`-th block starts
+    (`k ≥ 1`) is a jump target of some decoded instruction. -/
+theorem C13_later_blocks_are_jump_targets (ois : List (Nat × Instr)) (k t : Nat) (hk : 0 < k) (ht : (targetsOf ois)[k]? = some t) :
+    t ∈ jumpTargets ois := by
+  have hmem : t ∈ targetsOf ois := List.mem_of_getElem? ht
+  rcases (mem_targetsOf ois t).mp hmem with h0 | hj
+  · -- 0 is the smallest target, so it sits at index 0
+    subst h0
+    have hs := targetsOf_sorted ois
+    have h00 : (targetsOf ois)[0]? = some 0 := by
+      have hz := zero_mem_targetsOf ois
+      cases hT : targetsOf ois with
+      | nil => rw [hT] at hz; simp at hz
+      | cons x xs =>
+        rw [hT] at hs hz
+        simp only [SortedLt, List.pairwise_cons] at hs
+        rcases List.mem_cons.mp hz with h | h
+        · subst h; simp
+        · have := hs.1 0 h; omega
+    -- a strictly sorted list has no repeated element
+    have hk' : k < (targetsOf ois).length := (List.getElem?_eq_some_iff.mp ht).1
+    have h0' : 0 < (targetsOf ois).length := by omega
+    have e1 : (targetsOf ois)[k] = 0 := (List.getElem?_eq_some_iff.mp ht).2
+    have e0 : (targetsOf ois)[0] = 0 := by
+      have := (List.getElem?_eq_some_iff.mp h00).2; exact this
+    have := List.pairwise_iff_getElem.mp hs 0 k h0' hk' hk
+    omega
+  · exact hj
 
 /-- non-vacuity: three instructions, the last jumps back to the second: two blocks `[i0]`, `[i1, jump→1]` -/
 example :
